@@ -35,11 +35,11 @@ def e0(prop, extra_rule="", **kw):
 
 PROPS = {
     "C01": e0("C01", "Oracle: pairwise equality of entries/heads/manifest heads (and values under a strict order) for replicas with equal model sets after every event; "
-              "special merges change nothing; commutativity/associativity/idempotence on clones; convergence within N anti-entropy rounds after heal.",
+              "special merges change nothing; commutativity/associativity/idempotence on clones; convergence within N anti-entropy rounds after heal; scratch logs started from a length-limited load and caught up by unbounded merges (heads = unreferenced entries; same entries => same values).",
               expected_probes=["equal-set-pair", "stale-delivery", "comparator-ties"]),
     "C02": e0("C02", "Oracle after every event on every replica: Heads/RawHeads/snapshot heads == unreferenced entries of the model set.",
               expected_probes=["multi-head-state"]),
-    "C03": e0("C03", "Oracle after every event: Values/snapshot values/ToString complete, duplicate-free, causal, equal to the model sort under a strict order.",
+    "C03": e0("C03", "Oracle after every event: Values/snapshot values/ToString complete, duplicate-free, causal, equal to the model sort under a strict order (orderings per world: last-write-wins, its hash-tiebreak variant, an application-defined time-then-hash order).",
               expected_probes=["comparator-ties"]),
     "C04": e0("C04", "Oracle at every Append return: next == model heads, clock id == writer key, time > every held time, single head, refs sound and logarithmic.",
               expected_probes=["append-with-refs", "append-on-forked-log"]),
@@ -123,9 +123,9 @@ def e2(prop, extra, level="exploration", **kw):
 
 
 PROPS.update({
-    "C09": e2("C09", "Oracle: log rebuilt by each of the four loaders has the same id, entries, heads, manifest heads and (strict orders) values as the source.",
+    "C09": e2("C09", "Oracle: log rebuilt by each of the four loaders has the same id, entries, heads, manifest heads and (strict orders) values as the source; some reloads follow a load its caller gave up (cancelled mid-way); half of the worlds pass one options value to every load.",
               expected_probes=["reload-multi-head", "fetch-main-blocked-on-semaphore"]),
-    "C10": e2("C10", "Limits 0..size+2; each (source, loader, limit) is loaded 2-3 times under different completion orders/concurrency; oracle: exactly min(max(n,k),size) entries = supplied + most recent others, never above the limit, identical across orders (which-ones skipped when a comparator tie sits on the cut).",
+    "C10": e2("C10", "Limits 0..size+2; each (source, loader, limit) is loaded 2-3 times under different completion orders/concurrency, a third of them after a load its caller gave up (cancelled with requests outstanding or queued); oracle: exactly min(max(n,k),size) entries = supplied + most recent others, never above the limit, identical across orders (which-ones skipped when a comparator tie sits on the cut).",
               expected_probes=["limit-zero", "limit-beyond-size", "fetch-main-blocked-on-semaphore"]),
     "C11": e2("C11", "Fault plan per scenario: none / one / few / many blocks, kinds notfound, error, undecodable, stall; excluded hashes; random or forced cancellation. Oracle: result == model closure over next and refs along retrievable non-excluded entries (subset when cancelled), no duplicate entry, no duplicate or excluded request, termination, nothing outstanding at return.",
               level="fault_enumeration", expected_probes=["fetch-cancelled", "fault-cuts-off-history", "fetch-main-blocked-on-semaphore", "timeout-fired", "returned-before-timeout", "single-faults-enumerated-completely"],
@@ -203,6 +203,11 @@ for _p in ("C01", "C02", "C03", "C04", "C05"):
 
 # fetch engine and byzantine merges also under the race detector: a fifth of the worker slots runs the same
 # runs with the -race build (the library's own goroutines - fetch workers, verification workers - are real)
+# C09 also in virtual time: two loads overlapping on one store, one of them given up by its caller
+PROPS["C09"].setdefault("also", []).append(dict(prop="C09T", variant="vt", share=0.15))
+PROPS["C09"]["rule"] += (" An eighth of the worker slots runs C09T (go1.26.8 synctest bubble): two loads overlap in virtual time on one store, the first is given up "
+                         "(context deadline or fetch timeout) while blocks are still on their way, the second must rebuild exactly the log it was asked for.")
+
 for _p in ("C06", "C07", "C08", "C09", "C10", "C11", "C12", "C18"):
     PROPS[_p].setdefault("also", []).append(dict(prop=_p, variant="race", share=0.2))
     PROPS[_p]["rule"] += " A fifth of the runs execute under the race detector (a report kills the worker with exit 66 and is attributed to the run)."
